@@ -253,6 +253,12 @@ def xy_trace(X, Y, transformer, t_end, window, upto, rate=None, start=None):
     from tradingenv.env import TradingEnvXY
     reset_clock()
     kw = {} if start is None else {"start": start}
+    if transformer == "fitted-z":
+        # an estimator instance ALREADY FITTED by the caller on the rows up to the fit date, handed over with `transformer_end`
+        # left at its default: a fitted transformer is used as it is (the reward scale then spans the whole price table, which
+        # these runs never alter)
+        from sklearn.preprocessing import StandardScaler
+        transformer, t_end = StandardScaler().fit(X.loc[:t_end]), None
     env = TradingEnvXY(X.copy(), Y.copy(), transformer=transformer, transformer_end=t_end, window=window, spread=0.002,
                        rate=None if rate is None else rate.copy(), **kw)
     out = []
@@ -280,6 +286,11 @@ def xy_cases(tier):
                     # single row up to the fit date - whatever is fitted must still use data up to D only
                     for gappy in (False, True, "eod", "start"):
                         out.append((transformer, window, te, cut, gappy))
+    for window in (1, 2):
+        for te in ((5,) if tier == "quick" else (4, 6)):
+            for cut in range(te, 12, 2 if tier == "quick" else 1):
+                for gappy in (False, True):
+                    out.append(("fitted-z", window, te, cut, gappy))
     return out
 
 
@@ -341,7 +352,7 @@ def _xy_work(chunk):
                                       "unperturbed tabular run raised %r" % (ex,), ("xy-base", transformer)))
             continue
         # the rate table: fixings dated after the cut are altered
-        if window == 1:
+        if window == 1 and transformer != "fitted-z":
           for late in (False, True):
             try:
                 rb = xy_trace(X, Y, transformer, idx[te], window, idx[cut], xy_rate(idx, None, late), start=st)
@@ -358,6 +369,8 @@ def _xy_work(chunk):
                 out["violations"].append(({"part": "xy", "transformer": transformer, "window": window, "te": te, "cut": cut, "pattern": "rate",
                                            "gappy": gappy, "tier": tier}, "tabular run with a rate series raised %r" % (ex,), ("xy-rate-exc", transformer)))
         for pat in perturbations(tier, len(idx) - 1 - cut):
+            if transformer == "fitted-z" and (isinstance(pat, str) or any(ya != "keep" for _, ya in pat)):
+                continue     # pre-fitted transformer: only the FEATURE table is altered (see xy_trace)
             if gappy == "start" and pat == "truncate":
                 continue     # with the start at the fit date a truncated table can hold too few steps to build an environment at all
             X2, Y2 = apply_pattern(X, Y, idx, cut, pat)
@@ -419,7 +432,7 @@ def run(tier, **kw):
                     "assignments) x {no extra, one extra quote or custom event at t+1s / t+L / t+L+1s of each gap} is executed once; the cumulative output "
                     "(observations, rewards, trades, holdings, NLV, track-record entries, recorded callbacks) at each step is filed under the events stamped <= t, "
                     "and the next execution's trades under the events stamped <= t+latency; a prefix class holding two different outputs is a violation. "
-                    "tabular: TradingEnvXY x transformer {none, z-score, yeo-johnson} x window x fit date x cut date x perturbation patterns of the next rows of X "
+                    "tabular: TradingEnvXY x transformer {none, z-score, yeo-johnson, a scaler instance already fitted by the caller (feature rows altered only)} x window x fit date x cut date x perturbation patterns of the next rows of X "
                     "and Y {keep, replace, NaN} + appended rows + truncation, on a complete table and on a gappy one (low-frequency feature, isolated NaN, a row missing from X, a NaN price); distinct_nontrivial = prefix classes + perturbed tabular runs" % nbars)
     rep.set("samples", [{"part": "core", "setting": [30, 1, "late", "all", 0, "features"], "nbars": nbars, "bits": 37, "extra": [4, "Q", 0]},
                         {"part": "xy", "transformer": "z-score", "window": 2, "te": 5, "cut": 7, "pattern": [["alt", "nan"], ["keep", "keep"]]}])
